@@ -13,7 +13,7 @@ Definition Acc (s : state) : Prop :=
 Lemma acc_step : forall v s l s', v_fb_fix v = true ->
   Acc s -> step v s l = Some s' -> Acc s'.
 Proof.
-  intros v s l s' Hv A H. step_cases H; specialize (A Hnc); destruct A as [A1 A2];
+  intros v s l s' Hv A H. use_fb_fix Hv H. step_cases H; specialize (A Hnc); destruct A as [A1 A2];
     unf; unfold Acc; simpl; intro Hc; try discriminate Hc;
     try (rewrite Hv in *; try discriminate);
     pose_sums w_trans;
